@@ -241,27 +241,168 @@ def bundle_of(c, files, r):
     return b
 
 
+# --------------------------------------------------------------------------
+# traces of the repository's own test-suite (opaque: bytes only), CorruptBytes.tla
+
+SUITE = ["ovni/emu-ovni-mp-simple", "nosv/emu-nosv-attach", "nosv/emu-nosv-mp-rank", "mpi/emu-mpi-func",
+         "nanos6/emu-nanos6-task-types", "tampi/emu-tampi-ss-comm", "ovni/emu-ovni-libovni-mark"]
+
+
+def suite_root():
+    for base in (os.path.join(core.REPO, "_build"), "/repo/_build"):
+        p = os.path.join(base, "test", "emu")
+        if os.path.isdir(p):
+            return p
+    return None
+
+
+class SuiteTrace:
+    def __init__(self, tid, name, path):
+        self.id = tid
+        self.name = name
+        self.streams = []
+        for d in obs.find_streams(path):
+            with open(os.path.join(d, "stream.obs"), "rb") as f:
+                data = f.read()
+            with open(os.path.join(d, "stream.json"), "rb") as f:
+                js = f.read()
+            self.streams.append({"rel": os.path.relpath(d, path), "data": data, "json": js,
+                                 "evs": obs.decode(data)})
+        if not self.streams or any(not st["evs"] for st in self.streams):
+            raise obs.DecodeError("no streams / empty stream")
+
+    def shape(self):
+        clocks = sorted(set(e["clock"] for st in self.streams for e in st["evs"]))
+        rank = {c: i for i, c in enumerate(clocks)}
+        return {"id": self.id,
+                "streams": [{"fsize": len(st["data"]), "offs": [e["off"] for e in st["evs"]],
+                             "sizes": [e["size"] for e in st["evs"]],
+                             "ranks": [rank[e["clock"]] for e in st["evs"]],
+                             "ends": [1 if e["mcv"] == "OHe" else 0 for e in st["evs"]]} for st in self.streams]}
+
+    def files(self, c=None):
+        out = []
+        for i, st in enumerate(self.streams):
+            data = st["data"]
+            if c is not None and i == c["stream"] - 1:
+                k, p, q = c["kind"], c["p"], c["q"]
+                evs = st["evs"]
+                if k == "trunc":
+                    data = data[:p]
+                elif k == "hdr":
+                    data = data[:p] + bytes([(data[p] + q) % 256]) + data[p + 1:]
+                elif k == "swap":
+                    a, b = evs[p - 1], evs[p]
+                    data = (data[:a["off"]] + data[b["off"]:b["off"] + b["size"]]
+                            + data[a["off"]:a["off"] + a["size"]] + data[b["off"] + b["size"]:])
+                elif k == "clock":
+                    e = evs[p - 1]
+                    data = (data[:e["off"] + 4] + struct.pack("<Q", evs[p - 2]["clock"] - 1)
+                            + data[e["off"] + 12:])
+                else:
+                    raise core.MachineryError("unknown byte corruption %r" % k)
+            out.append((st["rel"], data, st["json"]))
+        return out
+
+
+def run_files(bdir, files):
+    d = core.mkscratch("c12")
+    try:
+        td = os.path.join(d, "ovni")
+        for rel, data, js in files:
+            sd = os.path.join(td, rel)
+            os.makedirs(sd)
+            with open(os.path.join(sd, "stream.obs"), "wb") as f:
+                f.write(data)
+            with open(os.path.join(sd, "stream.json"), "wb") as f:
+                f.write(js)
+        return emu.ovniemu(bdir, td, ("-l",), timeout=60)
+    finally:
+        shutil.rmtree(d, ignore_errors=True)
+
+
+SUITE_QUICK = 4
+
+
+def load_suite(bdir, ck, tier):
+    """valid traces of the test-suite, when a build tree with the tests is around (optional)"""
+    root = suite_root()
+    traces, skipped = [], []
+    if root is None:
+        ck.notes["suite_traces"] = "no _build/test/emu tree: byte-level corruptions of suite traces skipped"
+        return traces
+    for name in (SUITE[:SUITE_QUICK] if tier == "quick" else SUITE):
+        path = os.path.join(root, name + ".dir", "ovni")
+        if not os.path.isdir(path):
+            skipped.append(name + " (missing)")
+            continue
+        try:
+            t = SuiteTrace(len(traces) + 1, name, path)
+        except (obs.DecodeError, OSError, ValueError) as ex:
+            skipped.append("%s (%s)" % (name, ex))
+            continue
+        # a seed must be a valid trace: the unmodified copy is accepted
+        r = run_files(bdir, t.files())
+        if not r.accepted:
+            skipped.append("%s (not accepted by ovniemu -l as it is: %s)" % (name, r.verdict))
+            continue
+        traces.append(t)
+    ck.notes["suite_traces"] = {"used": [t.name for t in traces], "skipped": skipped}
+    return traces
+
+
 def main(pid, tier):
     ck = core.Check(pid, "model_checking", tier)
     bdir = core.build("hooks")
     cfg = "Corrupt.cfg" if tier == "quick" else "Corrupt_Thorough.cfg"
 
-    # the family and, concurrently, the negative configurations
-    jobs = [("Corrupt", cfg, 10)] + [("Corrupt", n[0], 3) for n in NEG]
-    rs = core.pmap(lambda j: core.tlc(j[0], j[1], workers=j[2], tags=("TR", "SEED"), timeout=3000, heap="8g"),
-                   jobs, threads=True)
+    suite = load_suite(bdir, ck, tier)
+    sdir = core.mkscratch("c12shapes")
+    shapes = os.path.join(sdir, "shapes.ndjson")
+    with open(shapes, "w") as f:
+        for t in suite:
+            f.write(json.dumps(t.shape()) + "\n")
+    bcfg = "CorruptBytes.cfg" if tier == "quick" else "CorruptBytes_Thorough.cfg"
+
+    # the family and, concurrently, the negative configurations and the byte-level family
+    jobs = [("Corrupt", cfg, 10, None)] + [("Corrupt", n[0], 2, None) for n in NEG]
+    if suite:
+        jobs += [("CorruptBytes", bcfg, 2, {"SHAPES": shapes}), ("CorruptBytes", "CorruptBytes_Neg.cfg", 1, {"SHAPES": shapes})]
+    try:
+        rs = core.pmap(lambda j: core.tlc(j[0], j[1], workers=j[2], env=j[3], tags=("TR", "SEED"), timeout=3000,
+                                          heap="8g"), jobs, threads=True)
+    finally:
+        shutil.rmtree(sdir, ignore_errors=True)
     r = rs[0]
     core.tlc_expect_ok(r, cfg)
     ck.add_tlc(r, "Corrupt/%s (every single corruption of the seed traces, one behaviour each)" % cfg)
     if r.violated:
         ck.violation("the corruption family violates %s: the acceptance function of the specification and the "
                      "property layer disagree" % r.violated, {"tlc.out": r.out[-20000:]}, sig="c12:spec")
-    for (ncfg, inv, what), rn in zip(NEG, rs[1:]):
+    for (ncfg, inv, what), rn in zip(NEG, rs[1:1 + len(NEG)]):
         core.tlc_expect_ok(rn, ncfg)
         ck.add_tlc(rn, "Corrupt/%s (negative: %s)" % (ncfg, what))
         if rn.violated != inv:
             raise core.MachineryError("negative configuration %s is not refuted (%s): expected %s violated, got %r"
                                       % (ncfg, what, inv, rn.violated))
+    bcases = []
+    if suite:
+        rb, rbn = rs[-2], rs[-1]
+        core.tlc_expect_ok(rb, bcfg)
+        core.tlc_expect_ok(rbn, "CorruptBytes_Neg.cfg")
+        ck.add_tlc(rb, "CorruptBytes/%s (byte-level corruptions of %d traces of the test-suite)" % (bcfg, len(suite)))
+        ck.add_tlc(rbn, "CorruptBytes/CorruptBytes_Neg.cfg (negative: a thread may end without OHe)")
+        if rb.violated:
+            ck.violation("CorruptBytes violates %s" % rb.violated, {"tlc.out": rb.out[-20000:]}, sig="c12:spec-bytes")
+        if rbn.violated != "TruncLosesEnd":
+            raise core.MachineryError("negative configuration CorruptBytes_Neg.cfg is not refuted: %r" % rbn.violated)
+        ub = {}
+        for tg, o in rb.lines:
+            if tg == "TR":
+                ub.setdefault(json.dumps([o["trace"], o["kind"], o["stream"], o["p"], o["q"]]), o)
+        bcases = list(ub.values())
+        if not bcases:
+            raise core.MachineryError("CorruptBytes export is empty")
     ck.notes["negative_configurations"] = [{"cfg": n[0], "refuted_by": n[1], "what": n[2]} for n in NEG]
     ck.phase("tlc")
 
@@ -321,6 +462,36 @@ def main(pid, tier):
                 agree += 1
         else:
             raise core.MachineryError("unknown verdict %r exported by the specification" % exp)
+    # byte-level corruptions of the suite traces
+    by_id = {t.id: t for t in suite}
+    bres = core.pmap(lambda c: run_files(bdir, by_id[c["trace"]].files(c)), bcases) if bcases else []
+    for c, er in zip(bcases, bres):
+        t = by_id[c["trace"]]
+        exp = c["verdict"]
+        key = "suite:%s/%s" % (c["kind"], exp)
+        table[key] = table.get(key, 0) + 1
+        ck.case(json.dumps(["suite", t.name, c["kind"], c["stream"], c["p"], c["q"]]), nontrivial=True)
+        what = "test-suite trace %s, %s" % (t.name, describe(dict(c, q=(c["q"] + t.streams[c["stream"] - 1]["data"][c["p"]]) % 256)
+                                                         if c["kind"] == "hdr" else
+                                                         dict(c, q=t.streams[c["stream"] - 1]["evs"][c["p"] - 2]["clock"] - 1)
+                                                         if c["kind"] == "clock" else c))
+        files = None
+        bad = None
+        if er.signal or er.timeout or er.sanitizer:
+            bad = ("ovniemu %s on a corrupted trace (%s); expected verdict %s" % (er.verdict, what, exp), ":crash")
+        elif exp == "reject" and (er.finished_ok or er.rc != 1):
+            bad = ("invalid trace not rejected (%s): ovniemu -l verdict '%s' (exit status %s), the specification says "
+                   "reject" % (what, er.verdict, er.rc), "")
+        elif exp == "unspecified" and (er.rc not in (0, 1) or (er.rc == 0) != er.finished_ok):
+            bad = ("ovniemu ended with %s on a corrupted trace (%s)" % (er.verdict, what), ":exit")
+        elif exp not in ("reject", "unspecified"):
+            raise core.MachineryError("unknown verdict %r exported by CorruptBytes" % exp)
+        if bad:
+            files = t.files(c)
+            ck.violation(bad[0], bundle_of(c, files, er), sig="c12:suite:" + c["kind"] + bad[1])
+        else:
+            agree += 1
+    ck.phase("suite_traces")
     ck.cov["traces_validated_against_impl"] = agree
     ck.notes["cases_by_kind_and_expected_verdict"] = dict(sorted(table.items()))
     ck.notes["seeds"] = {str(s.id): {"streams": len(s.streams),
@@ -328,7 +499,6 @@ def main(pid, tier):
                                      "file_sizes": [st["fsize"] for st in s.streams]} for s in seeds.values()}
     for c in cases[:2] + cases[-2:]:
         ck.sample(c)
-    ck.phase("compare")
     ck.assumptions += [
         "an 'ovni.part' other than \"thread\", a thread / process / loom id replaced by a fresh one, a require entry or "
         "CPU list of the wrong JSON type and a trace in which no stream requires the base model are Unspecified "
